@@ -23,6 +23,42 @@ impl<'a> Iterator for Counting<'a> {
     }
 }
 
+/// A token as a speech recogniser delivers it: `nt_separated` is computed from the timing of the token the
+/// library passes as `previous` (the documented use case), so a stale `previous` shows up as a spurious pause.
+struct TTok {
+    text: String,
+    lower: String,
+    start: u64,
+    end: u64,
+    nan: bool,
+}
+impl text2num::Token for &TTok {
+    fn text(&self) -> &str {
+        &self.text
+    }
+    fn text_lowercase(&self) -> &str {
+        &self.lower
+    }
+    fn nt_separated(&self, previous: &Self) -> bool {
+        self.start.saturating_sub(previous.end) > 100
+    }
+    fn not_a_number_part(&self) -> bool {
+        self.nan
+    }
+}
+/// words last 300 ms, 20 ms apart; a '~' token starts after a 500 ms pause
+fn timed(toks: &[HTok]) -> Vec<TTok> {
+    let mut t = 0u64;
+    toks.iter()
+        .map(|h| {
+            t += if h.sep { 500 } else { 20 };
+            let start = t;
+            t += 300;
+            TTok { text: h.text.clone(), lower: h.lower.clone(), start, end: t, nan: h.nan }
+        })
+        .collect()
+}
+
 fn skipped(t: &HTok) -> bool {
     stream::is_ws(&t.text) || t.text == "-"
 }
@@ -88,6 +124,18 @@ fn one_stream(ctx: &Ctx, acc: &mut Acc, l: L, lang: &text2num::Language, syms: &
                 let bound = if j + 2 < r0.len() { r0[j + 2].end } else { toks.len() };
                 if *pulled > bound {
                     rep(acc, thr, "look-ahead never goes beyond the second number after the one returned", format!("<= {bound} tokens pulled when {} is returned", o.show()), format!("{pulled} tokens pulled"));
+                }
+            }
+        }
+        // (2b) the same stream delivered with timings instead of flags gives the same occurrences
+        // (only when no token is one the scanner skips: the pause is then always measured against the
+        // immediate predecessor)
+        if !toks.iter().any(skipped) {
+            acc.traces += 1;
+            let tt = timed(&toks);
+            if let Ok(got) = guard(|| text2num::find_numbers(tt.iter(), lang, thr).iter().map(Occ::of).collect::<Vec<_>>()) {
+                if got != batch {
+                    rep(acc, thr, "hints computed from the predecessor the library passes (timings) give the same occurrences as the same hints given as flags", stream::show_occs(&batch), stream::show_occs(&got));
                 }
             }
         }
